@@ -37,11 +37,22 @@ def main():
         schema.list(schema.str.alphabet("1223334444")).len(3), schema.dict({"k": schema.str.alphabet("mississippi").len(4)}),
         schema.bytes, schema.list([schema.int, schema.str.alphabet("aab"), ...]),
     ]
+    # LONG / DEEP: anything counted per call and never reset (depth counters, totals) shifts what later open-ended
+    # schemas draw: many fixed-element lists and a deeply nested one, with open-ended lists / dicts before and after
+    fixed = schema.list([schema.int, schema.str])
+    deepfixed = schema.list([schema.list([schema.list([schema.list([schema.list([schema.int])])])])])
+    deeptyped = schema.list(schema.list(schema.list(schema.list(schema.list(schema.int).len(1, 2)).len(1, 2)).len(1, 2)).len(1, 2)).len(1, 2)
+    else_directed += [schema.list(schema.int), fixed, fixed, fixed, fixed, fixed, fixed, schema.list(schema.int), deepfixed, schema.list(schema.str),
+                      deeptyped, schema.list(schema.int), schema.dict({"a": schema.dict({"b": schema.dict({"c": schema.dict({"d": schema.list(schema.int)})})})}),
+                      schema.list(schema.int), schema.any(*[schema.int(i) for i in range(12)]), schema.list(schema.int)]
     from harness import custom
     # custom types may use every primitive of the generator's Random (shuffle_list is used by nothing built in)
     else_directed += [custom.DeckSchema(), schema.dict({"deck": custom.DeckSchema(), "n": schema.int}), schema.list(custom.DeckSchema()).len(2)]
     if not with_neg:
-        schemas = else_directed[:3] + schemas[: n // 2] + else_directed[3:] + schemas[n // 2:]
+        # open-ended containers FIRST: in the cold first pass nothing has been generated before them
+        cold = [schema.list(schema.int), schema.list(schema.str), schema.dict({"a": schema.list(schema.int), "b": schema.str}),
+                schema.str, schema.bytes, schema.list(schema.list(schema.int))]
+        schemas = cold + else_directed[:3] + schemas[: n // 2] + else_directed[3:] + schemas[n // 2:] + cold
     if with_neg:
         schemas = [schema.str.regex(r"[^a]{6}"), schema.str.regex(r"x[^0-9a-z]+"), schema.list(schema.str.regex(r"[^\w]")).len(3)]
     out = {"schemas": [repr(s) for s in schemas], "runs": {}}
